@@ -27,14 +27,15 @@ type c20fEnv struct {
 	ScryptCount   *big.Int
 	ShaDiff       *big.Int
 	Difficulty    *big.Int
-	Rate          *big.Int
+	Rate          *big.Int // the exchange-rate argument handed to the helpers
+	HeaderRate    *big.Int // header.ExchangeRate(); nil = same as Rate (Append passes the header's rate in its first passes and the new rate in the last)
 	regime        string
 	wo            *types.WorkObject
 }
 
 func (e *c20fEnv) dump() map[string]any {
 	return map[string]any{"prime_terminus_number": e.PrimeTerminus, "regime": e.regime, "zone_number": e.ZoneNumber, "sha_count": e.ShaCount.String(),
-		"scrypt_count": e.ScryptCount.String(), "sha_difficulty": e.ShaDiff.String(), "difficulty": e.Difficulty.String(), "exchange_rate": e.Rate.String()}
+		"scrypt_count": e.ScryptCount.String(), "sha_difficulty": e.ShaDiff.String(), "difficulty": e.Difficulty.String(), "exchange_rate": e.Rate.String(), "header_exchange_rate": fmt.Sprint(e.HeaderRate)}
 }
 
 func (e *c20fEnv) header() *types.WorkObject {
@@ -46,7 +47,11 @@ func (e *c20fEnv) header() *types.WorkObject {
 	wo.WorkObjectHeader().SetNumber(new(big.Int).SetUint64(e.ZoneNumber))
 	wo.WorkObjectHeader().SetShaDiffAndCount(types.NewPowShareDiffAndCount(new(big.Int).Set(e.ShaDiff), new(big.Int).Set(e.ShaCount), big.NewInt(0)))
 	wo.WorkObjectHeader().SetScryptDiffAndCount(types.NewPowShareDiffAndCount(big.NewInt(0), new(big.Int).Set(e.ScryptCount), big.NewInt(0)))
-	wo.Header().SetExchangeRate(new(big.Int).Set(e.Rate))
+	hr := e.Rate
+	if e.HeaderRate != nil {
+		hr = e.HeaderRate
+	}
+	wo.Header().SetExchangeRate(new(big.Int).Set(hr))
 	wo.Header().SetMinerDifficulty(new(big.Int).Set(e.Difficulty))
 	e.wo = wo
 	return wo
